@@ -264,3 +264,13 @@ def opus_jobs(Job, cfg=CFG_NDEBUG, tier="quick"):
 
 def c17_extra(Job, tier):
     return opus_jobs(Job) + fileio_jobs(Job)[1:4]
+
+
+# ---- C01 extra: renderings (ostream event model) --------------------------------------------------------------
+def render_jobs(Job, cfg=CFG_NDEBUG, tier="quick"):
+    return [Job("D_hexdump_bytes_%s" % cfg[0], "harness/dfs_render.c", "h_hexdump", enforce=["hexdump_bytes"], loops=True,
+                defines=list(cfg[1]), extract=ext(["hexdump_bytes"]), tier=tier, cover=True, solver="portfolio", timeout=900)]
+
+
+def c01_extra(Job, tier):
+    return render_jobs(Job)
